@@ -77,12 +77,16 @@ func checkC02(p *Prog, r *Report) {
 		t.Run()
 		for _, sp := range t.Semantic(func(a *TAtom) (string, bool) {
 			if a.Kind == "enum" {
-				c := stripVarLines(p.Canon(a.X))
-				switch {
-				case strings.HasSuffix(c, ".Type.Method"):
-					return "method", false
-				case strings.HasSuffix(c, ".Type.Class"):
-					return "class", false
+				// the Method / Class field of a STUN message type, however the message (or its type) reaches the function
+				if sel, ok := unparen(a.X).(*ast.SelectorExpr); ok && p.FieldOf(sel) != nil {
+					if t := p.TypeOf(sel.X); t != nil && strings.HasSuffix(typeStr(t), "stun.MessageType") {
+						switch sel.Sel.Name {
+						case "Method":
+							return "method", false
+						case "Class":
+							return "class", false
+						}
+					}
 				}
 			}
 			return "", false
